@@ -372,6 +372,13 @@ pub struct Utxo {
     pub datum: Option<DatumAt>,
     #[serde(default, skip_serializing_if = "Option::is_none")]
     pub script_ref: Option<ScriptId>,
+    /// a pure-ADA value that carries an empty asset map (`[coin, {}]`, what value arithmetic or a
+    /// JSON wallet export leaves behind) instead of no map at all
+    #[serde(default, skip_serializing_if = "is_false")]
+    pub empty_ma: bool,
+}
+fn is_false(b: &bool) -> bool {
+    !*b
 }
 
 #[derive(Serialize, Deserialize, Clone, Debug, Default)]
@@ -463,7 +470,11 @@ impl World {
         csl::TransactionInput::new(&csl::TransactionHash::from_bytes(tx_hash_bytes(u.tx).to_vec()).unwrap(), u.ix)
     }
     pub fn output_of(&self, u: &Utxo) -> csl::TransactionOutput {
-        let mut o = csl::TransactionOutput::new(&self.address(&u.addr), &self.value(u.coin, &u.assets));
+        let mut val = self.value(u.coin, &u.assets);
+        if u.empty_ma && u.assets.is_empty() {
+            val.set_multiasset(&csl::MultiAsset::new());
+        }
+        let mut o = csl::TransactionOutput::new(&self.address(&u.addr), &val);
         match &u.datum {
             Some(DatumAt::Hash(d)) => o.set_data_hash(&csl::hash_plutus_data(&self.datum(*d))),
             Some(DatumAt::Inline(d)) => o.set_plutus_data(&self.datum(*d)),
